@@ -1,4 +1,5 @@
 import VermouthModel.C06
+import VermouthModel.C06_Ismags
 open Proto Iso C06
 
 def nodeOf (t : Tok) : Option (Int × Int) := do
@@ -15,6 +16,38 @@ def graphOf (ns es : Tok) : Option Graph := do
   pure { nodes := ← (← ns.list?).mapM nodeOf, edges := ← (← es.list?).mapM edgeOf }
 
 def pairOf (t : Tok) : Option (Int × Int) := nodeOf t
+
+def pairsOf (t : Tok) : Option (List (Int × Int)) := do (← t.list?).mapM pairOf
+
+def cosetOf (t : Tok) : Option (Int × List Int) := do
+  match ← t.list? with
+  | [k, vs] => pure (← k.int?, ← ints? vs)
+  | _ => none
+
+/-! answers of the TRANSCRIPTION (`VermouthModel/C06_Ismags.lean`) -/
+
+def encSet (s : List Int) : String := encList ((C06I.sortInts s).map encInt)
+
+/-- `_find_nodecolor_candidates()` and `_get_lookahead_candidates()`: per pattern node the single
+node-colour set and the look-ahead set -/
+def answerTCand (edgeNone : Bool) (g sg : Graph) : String :=
+  let nc := C06I.findNodecolorCandidates g sg
+  let la := C06I.getLookaheadCandidates edgeNone g sg
+  encList (sg.keys.map fun u =>
+    encList [encList ((C06I.Cands.get nc u).map encSet), encList ((C06I.Cands.get la u).map encSet)])
+
+/-- a yielded mapping listed along the pattern nodes (total maps: the targets only) -/
+def alongPattern (sg : Graph) (m : Map) : Map := sg.keys.filterMap fun u => (m.lookup u).map fun t => (u, t)
+
+def answerTIso (edgeNone : Bool) (g sg : Graph) (C : List (Int × Int)) : String :=
+  encList ((sortMaps ((C06I.findIsomorphisms edgeNone g sg C).map (alongPattern sg))).map encTotal)
+
+def answerTLcs (g sg : Graph) (C : List (Int × Int)) : String :=
+  encList ((sortMaps ((C06I.largestCommonSubgraph g sg C).map (alongPattern sg))).map encPartial)
+
+def answerTCons (cosets : List (Int × List Int)) : String :=
+  encList (((C06I.makeConstraints cosets).mergeSort fun a b => a.1 < b.1 || (a.1 == b.1 && a.2 ≤ b.2)).map
+    fun p => encList [encInt p.1, encInt p.2])
 
 def handle (_ : Unit) (toks : List Tok) : Unit × String :=
   let r : Option String :=
@@ -34,6 +67,14 @@ def handle (_ : Unit) (toks : List Tok) : Unit × String :=
     | [Tok.str "lcssym", gn, ge, sn, se, out] => do
         let o ← (← out.list?).mapM (fun m => do (← m.list?).mapM pairOf)
         pure (answerLcsSym (← graphOf gn ge) (← graphOf sn se) o)
+    | [Tok.str "tcand", Tok.int en, gn, ge, sn, se] => do
+        pure (answerTCand (en != 0) (← graphOf gn ge) (← graphOf sn se))
+    | [Tok.str "tiso", Tok.int en, gn, ge, sn, se, c] => do
+        pure (answerTIso (en != 0) (← graphOf gn ge) (← graphOf sn se) (← pairsOf c))
+    | [Tok.str "tlcs", gn, ge, sn, se, c] => do
+        pure (answerTLcs (← graphOf gn ge) (← graphOf sn se) (← pairsOf c))
+    | [Tok.str "tcons", cs] => do
+        pure (answerTCons (← (← cs.list?).mapM cosetOf))
     | _ => none
   ((), r.getD "bad-op")
 
